@@ -176,6 +176,39 @@ func probeOrder(fn *ast.FuncDecl) []string {
 	return out
 }
 
+func dedupe(in []string) []string {
+	var out []string
+	seen := map[string]bool{}
+	for _, x := range in {
+		if !seen[x] {
+			seen[x] = true
+			out = append(out, x)
+		}
+	}
+	return out
+}
+
+// gptBranchReadsMBR: the then-branch of the `if err == nil` that follows the gpt.Read call contains a call of mbr.Read
+func gptBranchReadsMBR(fn *ast.FuncDecl) bool {
+	if fn == nil {
+		return false
+	}
+	sawGPT := false
+	for _, st := range fn.Body.List {
+		if strings.Contains(fx.Src(st), "gpt.Read(") {
+			sawGPT = true
+		}
+		is, ok := st.(*ast.IfStmt)
+		if !ok || !sawGPT {
+			continue
+		}
+		if fx.Src(is.Cond) == "err == nil" {
+			return strings.Contains(fx.Src(is.Body), "mbr.Read(")
+		}
+	}
+	return false
+}
+
 // constValue finds `name = <const expr>` in a file's const/var declarations.
 func constValue(f *ast.File, name string) (int64, bool) {
 	if f == nil {
@@ -210,11 +243,15 @@ func Extract() *fx.Group {
 	} else {
 		g.Missing("fsProbeOrder")
 	}
-	if o := probeOrder(fx.FindFunc(fx.Parse("partition/partition.go"), "", "Read")); len(o) > 0 {
+	tblRead := fx.FindFunc(fx.Parse("partition/partition.go"), "", "Read")
+	if o := dedupe(probeOrder(tblRead)); len(o) > 0 {
 		g.Strs("tableProbeOrder", o)
 	} else {
 		g.Missing("tableProbeOrder")
 	}
+	// as-found switch: once gpt.Read has accepted, does partition.Read still consult mbr.Read (a legacy MBR in
+	// sector 0 - used entries, none protective - means the GPT structures are leftovers)?
+	g.Bool("tableReadChecksLegacyMBR", gptBranchReadsMBR(tblRead))
 	// FAT thresholds as written in Create and in Read
 	for _, k := range []string{"fat12", "fat16"} {
 		f := fx.Parse("filesystem/" + k + "/" + k + ".go")
